@@ -10,6 +10,7 @@ import SnesVerif.Rom.BusIO
 import SnesVerif.Rom.Header
 import SnesVerif.Asm.Model
 import SnesVerif.Cpu.Impl
+import SnesVerif.System.RunUntil
 
 def hexNat? (s : String) : Option Nat :=
   if s.isEmpty then none else
@@ -397,11 +398,37 @@ def run (ws : List String) : String :=
       ";".intercalate (go n ⟨r, ⟨base, []⟩⟩ [])
     | _, _, _ => "bad-op"
   | _ => "bad-op"
+
+/-- `runu <p|a> <logger 0|1> <target> <maxCycles> <cbs a,b,..|-> <19 register fields> <seed> <ovl>`:
+outcome of `System.RunUntil` with the observer logs -/
+def runUntil (ws : List String) : String :=
+  match ws with
+  | v :: lg :: tgt :: mx :: cbs :: rest =>
+    if rest.length != 21 then "bad-op" else
+    match parseRegs (rest.take 19), hexNat? (rest.getD 19 ""), hexNat? tgt, hexNat? mx with
+    | some r, some seed, some tgt, some mx =>
+      let ovl := parseOvl (rest.getD 20 "-")
+      let base : Nat → U8 := fun a => match ovl.find? (·.1 == a) with
+        | some (_, x) => BitVec.ofNat 8 x
+        | none => BitVec.ofNat 8 (hash8 seed.toUInt64 a.toUInt32).toNat
+      let variant := if v == "a" then Variant.alt else Variant.primary
+      let cbl := if cbs == "-" then [] else (cbs.splitOn ",").filterMap hexNat?
+      let show_ (tag : String) (b : Bool) (r : Sys.RU) : String :=
+        s!"{tag} {b01 b} {canon r.s.r} {toHex r.cycles} {toHex r.logs} " ++
+        "[" ++ ",".intercalate (r.onpc.reverse.map toHex) ++ "] [" ++ ",".intercalate (r.wdm.reverse.map (fun x => toHex x.toNat)) ++ "]|" ++
+        writesStr r.s.m
+      match Sys.runUntil variant (lg == "1") cbl tgt mx ⟨r, ⟨base, []⟩⟩ with
+      | .done r b => show_ "done" b r
+      | .crash r => show_ "crash" false r
+      | .outOfFuel r => show_ "fuel" false r
+    | _, _, _, _ => "bad-op"
+  | _ => "bad-op"
 end CpuDrv
 
 def handle (line : String) : String :=
   let line := line.trimAscii.toString
   if line.startsWith "bus " then BusDrv.run ((line.drop 4).toString.splitOn ";") else
+  if line.startsWith "runu " then CpuDrv.runUntil (((line.drop 5).toString.splitOn " ").filter (· ≠ "")) else
   if line.startsWith "cpu " then CpuDrv.run (((line.drop 4).toString.splitOn " ").filter (· ≠ "")) else
   if line.startsWith "enc " then AsmDrv.enc (((line.drop 4).toString.splitOn " ").filter (· ≠ "")) else
   if line.startsWith "asm " then
